@@ -167,6 +167,15 @@ class TiledStridedLayoutAttr(MemRefLayoutAttr, Data[TiledStridedLayout]):
         result_mapping: dict[tuple[int, int], Operation] = {}
         tsl = self.data
 
+        # optional bytes correction
+        if in_bytes:
+            assert memref_op is not None
+            memref_type = cast(MemRefType[Attribute], memref_op.type)
+            assert isinstance(memref_type.element_type, FixedBitwidthType)
+            el_bytes = memref_type.element_type.size
+        else:
+            el_bytes = 1
+
         # Handle the special case where a tsl is constructed from a stridedlayoutattr
         # In this case, if there are dynamic strides, we cannot perform
         # the TSL contiguity assumptions. Instead, dynamic strides are
@@ -177,7 +186,8 @@ class TiledStridedLayoutAttr(MemRefLayoutAttr, Data[TiledStridedLayout]):
         ):
             metadata_op = ExtractStridedMetaDataOp(memref_op)
             assert isinstance(memref_type.element_type, FixedBitwidthType)
-            element_size_op = ConstantOp.from_int_and_width(memref_type.element_type.size, IndexType())
+            # in the unit the steps are asked for (bytes or elements), like the static steps below
+            element_size_op = ConstantOp.from_int_and_width(el_bytes, IndexType())
             result.extend([metadata_op, element_size_op])
             for dim in range(tsl.dimension()):
                 depth = tsl.tstrides[dim].depth() - 1  # get last depth
@@ -186,15 +196,6 @@ class TiledStridedLayoutAttr(MemRefLayoutAttr, Data[TiledStridedLayout]):
                     stride = MuliOp(metadata_op.strides[dim], element_size_op)
                     result.append(stride)
                     result_mapping[(dim, depth)] = stride
-
-        # optional bytes correction
-        if in_bytes:
-            assert memref_op is not None
-            memref_type = cast(MemRefType[Attribute], memref_op.type)
-            assert isinstance(memref_type.element_type, FixedBitwidthType)
-            el_bytes = memref_type.element_type.size
-        else:
-            el_bytes = 1
 
         # to handle the dynamic case, we must first find the largest
         # statically defined step, and then use that to calculate the
